@@ -1,4 +1,90 @@
 import RP.Driver.Common
--- line-protocol driver for property C17 (stub)
-def handle (_line : String) : String := "unimplemented"
-def main : IO Unit := RP.Driver.run handle
+import RP.Model.Pgcopy
+/-! line-protocol driver for C17:
+`save <blueprint|metric|lookup> <n> <row values…>` → the bytes `save()` writes
+(`len=… fnv=… [hex=…]`) and what `load()` makes of them (`load=ok n=… cfnv=… [rows=…]`), or `panic`.
+Rows are given in the order the table iterates (= the order they are written). -/
+open RP.Driver RP.Pgcopy
+
+namespace RP.Driver.C17
+
+def fnvStep (h b : Nat) : Nat := ((h ^^^ b) * 1099511628211) % 18446744073709551616
+def fnv (bs : List Nat) : Nat := bs.foldl fnvStep 14695981039346656037
+def fnvRows (rows : List (List Nat)) : Nat :=
+  rows.foldl (fun h r => r.foldl (fun h v => (be 8 v).foldl fnvStep h) h) 14695981039346656037
+
+def hexDigit (n : Nat) : Char := if n < 10 then Char.ofNat (48 + n) else Char.ofNat (87 + n)
+def hex (bs : List Nat) : String := String.ofList (bs.flatMap (fun b => [hexDigit (b / 16), hexDigit (b % 16)]))
+def hex16 (n : Nat) : String := hex (be 8 n)
+
+def parseNats (ws : List String) : Option (List Nat) := ws.mapM String.toNat?
+
+def chunk (k : Nat) : Nat → List Nat → Option (List (List Nat))
+  | 0, [] => some []
+  | 0, _ :: _ => none
+  | n+1, xs =>
+    let r := xs.take k
+    if r.length < k then none else (chunk k n (xs.drop k)).map (r :: ·)
+
+def hexLimit : Nat := 700
+def rowsLimit : Nat := 8
+
+def answer (file : Option Bytes) (reload : Option (List (List Nat))) : String :=
+  match file with
+  | none => "panic"
+  | some bytes =>
+    let a := s!"len={bytes.length} fnv={hex16 (fnv bytes)}" ++ (if bytes.length ≤ hexLimit then s!" hex={hex bytes}" else "")
+    match reload with
+    | none => a ++ " load=panic"
+    | some rows =>
+      let b := s!" load=ok n={rows.length} cfnv={hex16 (fnvRows rows)}"
+      let c := if rows.length ≤ rowsLimit then
+          " rows=" ++ (if rows.isEmpty then "-" else ",".intercalate (rows.flatMap (fun r => r.map toString)))
+        else ""
+      a ++ b ++ c
+
+def prow : List Nat → Option PRow
+  | [a, b, c, d, e, f] => some ⟨a, b, c, d, e, f⟩
+  | _ => none
+def mrow : List Nat → Option MRow
+  | [a, b] => some ⟨a, b⟩
+  | _ => none
+def lrow : List Nat → Option LRow
+  | [a, b] => some ⟨a, b⟩
+  | _ => none
+def trow : List Nat → Option TRow
+  | [a, b, c] => some ⟨a, b, c⟩
+  | _ => none
+
+def handle (line : String) : String :=
+  match words line with
+  | "save" :: table :: n :: rest =>
+    match n.toNat?, parseNats rest with
+    | some n, some vals =>
+      match table with
+      | "blueprint" =>
+        match (chunk 6 n vals).bind (·.mapM prow) with
+        | some rows =>
+          let file := saveBlueprint rows
+          answer (some file) ((loadBlueprint file).map (fun m => m.rows.map (fun r => [r.past, r.present, r.future, r.edge, r.regret, r.policy])))
+        | none => "bad-op"
+      | "metric" =>
+        match (chunk 2 n vals).bind (·.mapM mrow) with
+        | some rows =>
+          let file := saveMetric rows
+          answer (some file) ((loadMetric file).map (fun m => m.map (fun (k, v) => [k, v])))
+        | none => "bad-op"
+      | "lookup" =>
+        match (chunk 2 n vals).bind (·.mapM lrow) with
+        | some rows =>
+          match saveLookup? rows with
+          | none => "panic"
+          | some file => answer (some file) ((loadLookup file).map (fun m => m.map (fun (k, v) => [k, v])))
+        | none => "bad-op"
+      | _ => "bad-op"
+    | _, _ => "bad-op"
+  | _ => "bad-op"
+
+end RP.Driver.C17
+
+def main : IO Unit := RP.Driver.run RP.Driver.C17.handle
